@@ -115,3 +115,31 @@ func verifC06(flags, src, hash, digits, keylen int) {
 		}
 	}
 }
+
+// The verdict depends only on the characters of the submitted code: the string GenerateOCRA
+// returned for one input and a copy of it are judged alike against another input.
+//
+//verif:harness prop=C06 name=samechars
+//verif:cases quick flags=2,3 digits=6
+//verif:cases thorough flags=2,3,6,31 digits=4,6,10
+//verif:replace github.com/ja7ad/otp.DecodeSecret=verifStub_DecodeSecret
+//verif:opt hmac=fresh unwind=1000 maxpaths=3000
+func verifH_C06_samechars() {
+	cfg := verifFlagsConfig(verifCase("flags"), 20, 0, verifCase("digits"), 1, 1)
+	inA := OCRAInput{Counter: verifBytes("a.C", 8), Challenge: verifBytes("a.Q", 8), Password: verifBytes("a.P", 20), SessionInfo: verifBytes("a.S", 4), Timestamp: verifBytes("a.T", 8)}
+	inB := OCRAInput{Counter: verifBytes("b.C", 8), Challenge: verifBytes("b.Q", 8), Password: verifBytes("b.P", 20), SessionInfo: verifBytes("b.S", 4), Timestamp: verifBytes("b.T", 8)}
+	verifPrefer(inA.Challenge[0] != inB.Challenge[0])
+	key := verifBytes("key", 10)
+	code, gerr := GenerateOCRA(verifSecretFor(key, false), cfg, inA)
+	if gerr != nil {
+		return
+	}
+	cp := string(append([]byte{}, code...))
+	ok1, _ := ValidateOCRA(verifSecretFor(key, false), code, cfg, inB)
+	ok2, _ := ValidateOCRA(verifSecretFor(key, false), cp, cfg, inB)
+	verifObserve("ok2", ok2)
+	verifAssert(ok1 == ok2, "verdict-depends-only-on-the-characters-of-the-code")
+	if verifSymbolic() {
+		verifAssert(verifResultOwned(code), "generated-code-shares-no-memory-with-pools-or-package-state")
+	}
+}
